@@ -109,6 +109,11 @@ def gen_cwd(r, t, want=None):
     elif k == "long":
         t["layout"]["mkdirs"].append(LONGDIR)
         t["cwd"] = b"$WD/" + LONGDIR.encode()
+    elif k == "private":
+        # a directory only the parent's user may enter: the child must get there before it gives up its identity
+        t["layout"]["mkdirs"].append("priv")
+        t["layout"]["modes"]["priv"] = 0o700
+        t["cwd"] = b"$WD/priv"
     elif k == "edge":
         # lengths around std's on-stack C-string buffer (384)
         t["layout"]["mkdirs"].append("e")
@@ -144,6 +149,21 @@ def gen_c06(r, n, tier):
         if r.chance(1, 4):
             t["streams"] = {"stdin": r.choice(["none", "pipe"]), "stdout": r.choice(["none", "pipe"]), "stderr": r.choice(["none", "merge"])}
         out.append(t)
+    # every combination of the launch options (executable override, cwd, setuid, setgid, setpgid)
+    q = 0
+    for exe in (False, True):
+        for cwdk in ("none", "sub", "private"):
+            for uid in (None, 65534 if IS_ROOT else os.getuid()):
+                for gid in (None, 65534 if IS_ROOT else os.getgid()):
+                    for pg in (False, True):
+                        t = base_tpl("c06-opt-%d" % q)
+                        q += 1
+                        if exe:
+                            t["argv"] = [b"shown-name", b"a"]
+                            t["exe"] = b"$STUB"
+                        gen_cwd(r, t, want=cwdk)
+                        t["uid"], t["gid"], t["setpgid"] = uid, gid, pg
+                        out.append(t)
     # NUL anywhere: refused, nothing started
     places = ["argv0", "argvk", "exe", "envkey", "envval", "cwd", "envkey-shadowed"]
     m = max(len(places), n // 4)
@@ -485,7 +505,7 @@ def py_env(env):
 
 def observe(s):
     """what the logs say: (forked, chdir arg | None, [(path, argv, envp | 'inherit', errno | None)], alloc lines)"""
-    o = {"forked": False, "chdir": None, "execs": [], "allocs": [], "child_pid": None, "chdir_ret": None}
+    o = {"forked": False, "chdir": None, "execs": [], "allocs": [], "child_pid": None, "chdir_ret": None, "order": []}
     plog = s["logs"].get(s["parent_pid"], [])
     for ln in plog:
         if ln.startswith("fork = "):
@@ -497,6 +517,8 @@ def observe(s):
         return o
     for ln in s["logs"].get(o["child_pid"], []):
         p = ln.split(" ")
+        if p[0] in ("chdir", "setuid", "setgid", "setpgid", "exec"):
+            o["order"].append(p[0])
         if p[0] == "chdir":
             o["chdir"] = e2.unhex(p[1])
             o["chdir_ret"] = ln.split(" = ")[1] if " = " in ln else None
@@ -663,6 +685,15 @@ def judge_all(chk, pid, scns, tag):
                 pass
             else:
                 bad.append("logged calls vs Lib/ExecArgs.v: %s" % CODE.get(code, code))
+        if pid == "C06" and res == "ok" and not fault:
+            # the order of the child's steps (Lib/Spawn.v do_exec, theorem C06_cwd_entered_with_parent_identity):
+            # the directory is entered before the identity is given up, the group before the user
+            t = s["tpl"]
+            want_order = (["chdir"] if req["cwd"] is not None else []) + (["setgid"] if t["gid"] is not None else []) + (
+                ["setuid"] if t["uid"] is not None else []) + (["setpgid"] if t["setpgid"] else [])
+            got_order = [x for x in o["order"] if x != "exec"]
+            if got_order != want_order:
+                bad.append("the child's steps before exec are %s, Lib/Spawn.v's do_exec makes %s" % (got_order, want_order))
         if bad:
             ndiv += 1
             s["div"] = "E2 conformance (%s): %s" % (s["id"], "; ".join(bad))
@@ -713,8 +744,14 @@ def monitors(pid, s):
             if zombies > 0:
                 bad.append("NUL in %s: a zombie was left" % t.get("nul"))
             return bad
-        if res != "ok" or fault:
-            return bad            # launch failures are C07/C15's business
+        if fault:
+            return bad            # injected launch failures are C07/C15's business
+        if res != "ok" and t.get("family") != "c06":
+            return bad            # lookup failures are C15's business
+        if res != "ok":
+            # every request of this family names an existing program and an existing directory
+            bad.append("a valid request (cwd=%r uid=%s gid=%s setpgid=%s) was refused: %s" % (req["cwd"], t["uid"], t["gid"], t["setpgid"], res))
+            return bad
         if rep is None:
             bad.append("the launch succeeded but no child reported")
             return bad
